@@ -706,7 +706,7 @@ func TestVerif_C17_ParkedCrowd(t *testing.T) {
 	rapid.Check(t, func(t *rapid.T) {
 		r := gen.Rand(t, "content")
 		N := []int{0, 3, 63, 64, 65, 127, 128, 129, 130, 200, 257, 300}[gen.Uniform(t, "crowd", 0, 11)]
-		order := gen.Pick(t, "release-order", "arrival", "reverse", "last-first")
+		order := gen.Pick(t, "release-order", "arrival", "reverse", "last-first", "last-first")
 		d := new(big.Int).SetBytes(gen.RandBytes(r, 40))
 		d.Mod(d, sm2gen.NM2).Add(d, big.NewInt(1))
 		d32 := gen.Pad32(d)
@@ -773,7 +773,7 @@ func TestVerif_C17_ParkedCrowd(t *testing.T) {
 		// phase 1: the crowd
 		crowd := make([]*job, N)
 		for i := range crowd {
-			crowd[i] = mk([]int{0, 7, 7, 31}[i%4], i%3 == 0) // parked before the first byte, or with part of the nonce already delivered
+			crowd[i] = mk([]int{7, 31, 7, 0}[i%4], i%3 == 0) // parked before the first byte, or with part of the nonce already delivered
 			run(crowd[i], crowd[i].src)
 			select {
 			case <-crowd[i].src.parked:
